@@ -19,14 +19,19 @@ from .common import CONS, short
 REF = os.path.join(VERIF_ROOT, "reference")
 
 
-def wire_signature(ck: Check) -> Dict[str, Any]:
+def message_classes(ck: Check) -> List[str]:
+    ex = extractor(ck)
+    return sorted(q for q in ex.codecs if q.startswith("skepticoin.networking.messages."))
+
+
+def wire_signature(ck: Check, classes: Any = None) -> Dict[str, Any]:
     ex = extractor(ck)
     sig: Dict[str, Any] = {}
 
     def enc(p: Any) -> Any:
         return [x.hex() if isinstance(x, bytes) else (short(x) if isinstance(x, str) and x.startswith("skepticoin.") else x) for x in p]
 
-    for q in CONSENSUS_CLASSES:
+    for q in (classes if classes is not None else CONSENSUS_CLASSES):
         c = ex.codecs.get(q)
         if c is None:
             raise AnalysisError("consensus class %s vanished" % q)
